@@ -19,6 +19,7 @@
     Impl ⊑ Spec ........................................... impl_refines_spec
 -/
 import Aqv.Lemmas.Tx
+import Aqv.Lemmas.Translated.Tx
 namespace Aqv.Props.C06
 open Aqv.Tx
 
@@ -653,5 +654,32 @@ example : (process (scriptEnv 2 0 none 0) id id 100000 [m0, { m0 with nonce := 7
     `env.homestead = true` of `failed_exec_only_gas` holds on all of them (pre-Homestead rules keep a creation whose code
     cannot be paid for — the harness shows this on a private Frontier config). -/
 theorem builtin_configs_homestead : Gen.TxParams.switches.all (fun s => s.2.1 == some 0) = true := by decide
+
+/-! ### tie by translation (T-gen `translated`, DESIGN 2.2 mini-translator): the gas pool and the gas counter
+
+core.(*GasPool).SubGas / AddGas / Gas and core.(*StateTransition).useGas are translated from the go/ssa form of the tree
+under test on every run (`Aqv.Gen.Translated`; the pointer receiver is threaded as an argument and an extra result, UInt64 with
+Go's wrap-around); the translated code refines the `Nat` model functions `subGas` / `addGas` the theorems above use
+(proofs in `Aqv.Lemmas.Translated.Tx`). -/
+
+/-- SubGas: `ErrGasLimitReached` exactly when the model says `none` (pool untouched), otherwise the model's new pool.
+    AddGas: panics exactly when the model says `none`, otherwise the model's new pool.  Gas reads the pool. -/
+theorem gasPool_code_is_model (gp amount : UInt64) :
+    Aqv.Lemmas.Translated.cellRes (Aqv.Gen.Translated.GasPool_SubGas gp amount) = subGas gp.toNat amount.toNat ∧
+    (gp < amount → Aqv.Gen.Translated.GasPool_SubGas gp amount = (some "core.ErrGasLimitReached", gp)) ∧
+    (Aqv.Gen.Translated.GasPool_AddGas gp amount).map (fun r => r.2.toNat) = addGas gp.toNat amount.toNat ∧
+    Aqv.Gen.Translated.GasPool_Gas gp = gp :=
+  ⟨Aqv.Lemmas.Translated.GasPool_SubGas_translated_eq gp amount, Aqv.Lemmas.Translated.GasPool_SubGas_translated_err gp amount,
+   Aqv.Lemmas.Translated.GasPool_AddGas_translated_eq gp amount, rfl⟩
+
+example : Aqv.Gen.Translated.GasPool_SubGas 100 30 = (none, 70) ∧ Aqv.Gen.Translated.GasPool_SubGas 10 30 = (some "core.ErrGasLimitReached", 10) ∧
+    Aqv.Gen.Translated.GasPool_AddGas 0xffffffffffffffff 1 = none ∧ Aqv.Gen.Translated.GasPool_AddGas 5 7 = some ((), 12) := by decide
+
+/-- useGas (the intrinsic-gas charge): `vm.ErrOutOfGas` exactly when the counter is below the amount — the model's
+    `m.gas < ig` test — otherwise the counter decreases by the amount. -/
+theorem useGas_code_is_model (gas amount : UInt64) :
+    Aqv.Lemmas.Translated.cellRes (Aqv.Gen.Translated.StateTransition_useGas gas amount)
+      = if gas.toNat < amount.toNat then none else some (gas.toNat - amount.toNat) :=
+  Aqv.Lemmas.Translated.StateTransition_useGas_translated_eq gas amount
 
 end Aqv.Props.C06
